@@ -173,6 +173,21 @@ Proof.
   intros j Hj. specialize (B j Hj). apply negb_true_iff in B. apply Z.eqb_neq in B. exact B.
 Qed.
 
+Lemma lay_wfb_wf vs lay : lay_wfb vs lay = true -> lay_wf vs lay.
+Proof.
+  revert lay. induction vs as [|v vs IH]; intros [|o lay] H; simpl in H; try discriminate; [constructor|].
+  apply andb_true_iff in H. destruct H as [A B]. constructor; [apply ord_wfb_wf; exact A|apply IH; exact B].
+Qed.
+
+Lemma lay_okb_ok vs lay : lay_okb vs lay = true -> lay_ok vs lay.
+Proof.
+  revert lay. induction vs as [|v vs IH]; intros [|o lay] H; simpl in H; try discriminate; [constructor|].
+  apply andb_true_iff in H. destruct H as [A B]. constructor; [apply ord_okb_ok; exact A|apply IH; exact B].
+Qed.
+
+Lemma lay_ok_wf vs lay : lay_ok vs lay -> lay_wf vs lay.
+Proof. induction 1 as [|v o vs lay [H _] _ IH]; constructor; assumption. Qed.
+
 (* ------------------------------------------------------------------ gather / scatter *)
 Section PolyProofs.
   Context {V : Type} (zero : V).
